@@ -309,12 +309,40 @@ class Resolver:
                     out.append(('external' if exts else 'unknown', (exts[0] if exts else t.qual) + '.' + f.attr))
             if out:
                 return _uniq(out)
-            if allow_name:
+            if allow_name and not self._receiver_is_external(fi, f.value, _depth + 1):
                 cands = self.method_names().get(f.attr, [])
                 if 1 <= len(cands) <= 3 and not _is_common_method(f.attr):
                     return [('func-name', c) for c in cands]
             return [('unknown', ast.unparse(f)[:80])]
         return [('unknown', ast.unparse(f)[:80])]
+
+    def _receiver_is_external(self, fi, expr, _depth=0):
+        """The receiver is certainly not an instance of a repository class: a literal,
+        a comprehension, or a local whose every definition is such a value or the
+        result of a call to an external callable."""
+        if _depth > 6:
+            return False
+        if isinstance(expr, (ast.Constant, ast.List, ast.Dict, ast.Set, ast.Tuple, ast.JoinedStr, ast.ListComp,
+                             ast.DictComp, ast.SetComp, ast.GeneratorExp, ast.BinOp, ast.Compare)):
+            return True
+        if isinstance(expr, ast.Call):
+            if isinstance(expr.func, ast.Attribute) and self._receiver_is_external(fi, expr.func.value, _depth + 1):
+                return True
+            res = self._resolve_call(fi, expr, _depth + 1, False)
+            return bool(res) and all(k == 'external' for k, _ in res)
+        if isinstance(expr, ast.Subscript):
+            return self._receiver_is_external(fi, expr.value, _depth + 1)
+        if isinstance(expr, ast.Name):
+            vals = self._local_assigns(fi).get(expr.id)
+            if not vals or expr.id in fi.params:
+                return False
+            for v in vals:
+                if v is None or isinstance(v, tuple):
+                    return False
+                if not self._receiver_is_external(fi, v, _depth + 1):
+                    return False
+            return True
+        return False
 
     def _from_resolved(self, r, text):
         if r is None:
